@@ -6,19 +6,23 @@ This file contains the part of C09 that concerns what a plugin step tells the fa
 (`workflow.go`, `checkForDeadlocks`: fires when no step counts as `starting`/`running`, nothing is ready and no output
 exists on `detectorRetries + 1` consecutive polls).  Model: `Arca.Model.PluginState` — the raw `r.state` /
 `r.currentStage` at the granularity of the lock regions and callbacks of `run()` and of the `provide*` handlers, what
-`State()` answers, the loop-side record (`l.reportedStages`, `l.completedSteps`, written when a report is PROCESSED) and
-the classification `countStates` makes since e0ccfb1 (`countsAs`).
+`State()` answers (e0ccfb1: input of the current stage provided ⇒ running; be7655c: context cancelled ⇒ running), the
+loop-side record (`l.reportedStages`, `l.completedSteps`, `l.finishedStages`, the stages settled by
+`markRemainingStagesUnresolvable`; all written when a report is PROCESSED) and the classification `countStates` makes
+(`countsAs`).  (v1: the F11 repair of the loop is not in the tree yet; the theorems for `marks = true` — `detector_sound_finished`,
+`detector_sound`, `failure_tail_settled_with_marking` — describe the loop AFTER that repair and are not obligations yet.)
+The model is parametrised by `marks` = "the loop marks the remaining stages unresolvable when it
+processes the completion" (the F11 repair); theorems that do not mention a value of `marks` hold for both.
 
 * The RAW state is unsound for the detector (finding F10a): `raw_state_window_*` are reachable states in which it says
   `waiting_for_input` / `finished` while the step is moving; in each of them `countsAs` now says `running`.
-* `detector_sound_waiting` (full strength): counted as `waiting` with the context not cancelled ⇒ parked on an empty
-  channel or about to park silently (`Settled`).  With the context cancelled the step is on its way to report `closed`.
-* `detector_sound_finished_partial`: counted as `finished` ⇒ nothing but the deferred closes is left — EXCEPT between the
-  processing of `OnStepComplete` and the `OnStepStageFailure` notifications that follow it on every ending but the
-  successful one (`detector_sound_counterexample_failure_tail`).
-* `no_lost_check`: the refinement never blinds the detector — wherever it turns a raw `waiting_for_input` / `finished`
-  into `running`, every run of the step to rest contains the processing of a report that re-runs the check and after
-  which the refinement is no longer at work.
+* `detector_sound_waiting` (full strength, no hypothesis): counted as `waiting` ⇒ the context is not cancelled and the
+  step is parked on an empty channel or about to park silently (`Settled`).
+* `detector_sound_finished` (full strength for `marks = true`): counted as `finished` ⇒ `Harmless`: every remaining
+  action of the step is a silent local move or an `OnStepStageFailure` about a stage the loop has already settled, and
+  none of them changes the loop-side record (`harmless_is_inert`).  Without the marking this is false
+  (`detector_sound_counterexample_failure_tail`, `marks = false`).
+* `no_lost_check`: the refinement never blinds the detector.
 -/
 import Arca.Proofs.PluginState
 
@@ -40,86 +44,111 @@ def toStartTry : List Act := toEnableWait ++ [.provideEnabling true, .recv, .del
 def toFailedCompletion : List Act :=
   [.provideDeploy, .internal, .deliver, .internal, .internal, .internal, .deployFail, .internal, .deliver, .internal, .internal]
 
-/-! ## the raw state: the windows of F10a, and what the detector makes of them now -/
+/-! ## the raw state: the windows of F10a, and what the detector makes of them now
+
+(each for both values of `marks`) -/
 
 /-- (0) deployStage: input provided between the non-blocking `select` (default branch) and the lock region that writes
     `waiting_for_input`; `provideDeployInput` saw `running` and did not flip the state -/
-theorem raw_state_window_deploy_race :
-    ∃ s, execute init [.internal, .deliver, .internal, .internal, .provideDeploy, .internal] = some s ∧
+theorem raw_state_window_deploy_race (marks : Bool) :
+    ∃ s, execute marks init [.internal, .deliver, .internal, .internal, .provideDeploy, .internal] = some s ∧
       s.stage = .deploy ∧ s.state = .waiting ∧ s.deployAvail = true ∧ Quiescent s = false ∧ countsAs s = .running := by
-  refine ⟨_, rfl, ?_, ?_, ?_, ?_, ?_⟩ <;> decide
+  cases marks <;> (refine ⟨_, rfl, ?_, ?_, ?_, ?_, ?_⟩ <;> decide)
 
 /-- (i) enableStage writes `waiting_for_input` although the enabling input is already available, and then reports the
     stage change before it even looks at the channel -/
-theorem raw_state_window_enabling :
-    ∃ s, execute init (toEnableLock ++ [.provideEnabling true, .internal]) = some s ∧
+theorem raw_state_window_enabling (marks : Bool) :
+    ∃ s, execute marks init (toEnableLock ++ [.provideEnabling true, .internal]) = some s ∧
       s.state = .waiting ∧ s.stage = .enabling ∧ s.enabledAvail = true ∧ s.pc = .eCb ∧
       Quiescent s = false ∧ countsAs s = .running := by
-  refine ⟨_, rfl, ?_, ?_, ?_, ?_, ?_, ?_⟩ <;> decide
+  cases marks <;> (refine ⟨_, rfl, ?_, ?_, ?_, ?_, ?_, ?_⟩ <;> decide)
 
 /-- (i) the same with no input yet: the report `deploy -> enabling` is in flight (`CurrentStage() != reportedStages`) -/
-theorem raw_state_window_enabling_report_in_flight :
-    ∃ s, execute init (toEnableLock ++ [.internal]) = some s ∧
+theorem raw_state_window_enabling_report_in_flight (marks : Bool) :
+    ∃ s, execute marks init (toEnableLock ++ [.internal]) = some s ∧
       s.state = .waiting ∧ s.enabledAvail = false ∧ s.pc = .eCb ∧ s.reportedStage = some .deploy ∧
       reportedState s = .waiting ∧ countsAs s = .running := by
-  refine ⟨_, rfl, ?_, ?_, ?_, ?_, ?_, ?_⟩ <;> decide
+  cases marks <;> (refine ⟨_, rfl, ?_, ?_, ?_, ?_, ?_, ?_⟩ <;> decide)
 
 /-- (ii) enabling input provided while `run()` is parked in enableStage: `provideEnablingInput` leaves the state alone -/
-theorem raw_state_window_enabling_provided_while_parked :
-    ∃ s, execute init (toEnableWait ++ [.provideEnabling true]) = some s ∧
+theorem raw_state_window_enabling_provided_while_parked (marks : Bool) :
+    ∃ s, execute marks init (toEnableWait ++ [.provideEnabling true]) = some s ∧
       s.state = .waiting ∧ s.pc = .eWait ∧ s.enabledOcc = true ∧ Quiescent s = false ∧ countsAs s = .running := by
-  refine ⟨_, rfl, ?_, ?_, ?_, ?_, ?_⟩ <;> decide
+  cases marks <;> (refine ⟨_, rfl, ?_, ?_, ?_, ?_, ?_⟩ <;> decide)
 
 /-- (iii) startStage found no run input in its non-blocking receive, the input arrives, and
     `transitionStageWithOutput(starting, waiting_for_input)` writes `waiting_for_input` afterwards -/
-theorem raw_state_window_starting :
-    ∃ s, execute init (toStartTry ++ [.internal, .provideStarting, .internal]) = some s ∧
+theorem raw_state_window_starting (marks : Bool) :
+    ∃ s, execute marks init (toStartTry ++ [.internal, .provideStarting, .internal]) = some s ∧
       s.state = .waiting ∧ s.stage = .starting ∧ s.runAvail = true ∧ s.pc = .transCb .starting ∧
       Quiescent s = false ∧ countsAs s = .running := by
-  refine ⟨_, rfl, ?_, ?_, ?_, ?_, ?_, ?_⟩ <;> decide
+  cases marks <;> (refine ⟨_, rfl, ?_, ?_, ?_, ?_, ?_, ?_⟩ <;> decide)
 
 /-- (ii) run input provided while `run()` is parked in startStage: `provideStartingInput` leaves the state alone -/
-theorem raw_state_window_starting_provided_while_parked :
-    ∃ s, execute init (toStartTry ++ [.internal, .internal, .deliver, .internal, .internal, .provideStarting]) = some s ∧
+theorem raw_state_window_starting_provided_while_parked (marks : Bool) :
+    ∃ s, execute marks init (toStartTry ++ [.internal, .internal, .deliver, .internal, .internal, .provideStarting]) = some s ∧
       s.state = .waiting ∧ s.pc = .sWait ∧ s.runOcc = true ∧ Quiescent s = false ∧ countsAs s = .running := by
-  refine ⟨_, rfl, ?_, ?_, ?_, ?_, ?_⟩ <;> decide
+  cases marks <;> (refine ⟨_, rfl, ?_, ?_, ?_, ?_, ?_⟩ <;> decide)
 
 /-- (iv) completeStep writes `finished` before `OnStepComplete` is processed -/
-theorem raw_state_window_completion_in_flight :
-    ∃ s, execute init toFailedCompletion = some s ∧
+theorem raw_state_window_completion_in_flight (marks : Bool) :
+    ∃ s, execute marks init toFailedCompletion = some s ∧
       s.state = .finished ∧ s.pc = .complCb .deployFailed ∧ s.completed = false ∧ Quiescent s = false ∧
       countsAs s = .running := by
-  refine ⟨_, rfl, ?_, ?_, ?_, ?_, ?_⟩ <;> decide
+  cases marks <;> (refine ⟨_, rfl, ?_, ?_, ?_, ?_, ?_⟩ <;> decide)
+
+/-- (c) closing: a stop condition or Close has cancelled the context, `run()` is parked and has not yet taken its
+    `ctx.Done()` branch: the raw state still says `waiting_for_input` (counted as running since be7655c) -/
+theorem raw_state_window_closing (marks : Bool) :
+    ∃ s, execute marks init (toEnableWait ++ [.cancel]) = some s ∧
+      s.state = .waiting ∧ s.ctxDone = true ∧ s.enabledAvail = false ∧ Quiescent s = false ∧ countsAs s = .running := by
+  cases marks <;> (refine ⟨_, rfl, ?_, ?_, ?_, ?_, ?_⟩ <;> decide)
+
+/-- .. in general: raw `waiting_for_input` with the context cancelled is counted as running, the step is not at rest and
+    owes the report of its completion (`closedEarly`) -/
+theorem raw_state_window_closing_owes_completion (marks : Bool) (s : St) (hr : Reachable marks s) (hw : s.state = .waiting)
+    (hctx : s.ctxDone = true) : countsAs s = .running ∧ owesCheck s = true ∧ Quiescent s = false := by
+  have hi := Arca.Proofs.PluginState.reachable_inv marks s hr
+  have h := Arca.Proofs.PluginState.raw_waiting_ctx_owes marks s hi hw hctx
+  exact ⟨h.1, h.2, Arca.Proofs.PluginState.owes_not_quiescent marks s hi h.2⟩
 
 /-- so the statement about the RAW state — `r.state ∈ {waiting, finished}` ⇒ quiescent — is false -/
-theorem raw_state_unsound :
-    ¬ (∀ s, Reachable s → (s.state = .waiting ∨ s.state = .finished) → Quiescent s = true) := by
+theorem raw_state_unsound (marks : Bool) :
+    ¬ (∀ s, Reachable marks s → (s.state = .waiting ∨ s.state = .finished) → Quiescent s = true) := by
   intro h
-  obtain ⟨s, hex, hw, _, _, _, hq, _⟩ := raw_state_window_enabling
+  obtain ⟨s, hex, hw, _, _, _, hq, _⟩ := raw_state_window_enabling marks
   have := h s (execute_reachable Reachable.init _ s hex) (Or.inl hw)
   rw [hq] at this
   cases this
 
 /-- .. and the windows `InWindow` are all there is: outside them the raw state is sound -/
-theorem raw_state_windows_exhaustive (s : St) (hr : Reachable s) (hw : s.state = .waiting ∨ s.state = .finished)
-    (hout : InWindow s = false) : Quiescent s = true := by
-  rcases Arca.Proofs.PluginState.raw_classified s (Arca.Proofs.PluginState.reachable_inv s hr) hw with h | h
+theorem raw_state_windows_exhaustive (marks : Bool) (s : St) (hr : Reachable marks s)
+    (hw : s.state = .waiting ∨ s.state = .finished) (hout : InWindow s = false) : Quiescent s = true := by
+  rcases Arca.Proofs.PluginState.raw_classified marks s (Arca.Proofs.PluginState.reachable_inv marks s hr) hw with h | h
   · exact h
   · rw [hout] at h
     cases h
 
 /-- raw `waiting_for_input` in stage `deploy` with the input provided: only the deploy race, or being closed -/
-theorem raw_deploy_wait_partial (s : St) (hr : Reachable s) (hst : s.stage = .deploy) (hw : s.state = .waiting)
-    (ha : s.deployAvail = true) : inDeployRace s = true ∨ s.pc = .failedLock .closed :=
-  Arca.Proofs.PluginState.deploy_waiting_provided s (Arca.Proofs.PluginState.reachable_inv s hr) hst hw ha
+theorem raw_deploy_wait_partial (marks : Bool) (s : St) (hr : Reachable marks s) (hst : s.stage = .deploy)
+    (hw : s.state = .waiting) (ha : s.deployAvail = true) : inDeployRace s = true ∨ s.pc = .failedLock .closed :=
+  Arca.Proofs.PluginState.deploy_waiting_provided marks s (Arca.Proofs.PluginState.reachable_inv marks s hr) hst hw ha
 
-/-! ## the detector's view since e0ccfb1 -/
+/-! ## the detector's view: `waiting` -/
+
+/-- what is counted as waiting has a context that is not cancelled (be7655c) -/
+theorem counted_waiting_not_cancelled (s : St) (hc : countsAs s = .waiting) : s.ctxDone = false := by
+  cases hctx : s.ctxDone with
+  | false => rfl
+  | true =>
+    cases hst : s.state <;> simp [countsAs, reportedState, hctx, hst] at hc
+    all_goals (split at hc <;> simp at hc)
 
 /-- `State()` never answers `waiting_for_input` in stage `deploy` once the deploy input has been provided; and a step
-    COUNTED as waiting in stage `deploy` (context not cancelled) is parked on the empty channel. -/
-theorem deploy_wait_is_sound (s : St) (hr : Reachable s) (hst : s.stage = .deploy) :
+    COUNTED as waiting in stage `deploy` is parked on the empty channel, with its context not cancelled. -/
+theorem deploy_wait_is_sound (marks : Bool) (s : St) (hr : Reachable marks s) (hst : s.stage = .deploy) :
     (reportedState s = .waiting → s.deployAvail = false) ∧
-    (countsAs s = .waiting → s.ctxDone = false → Quiescent s = true ∧ s.deployAvail = false) := by
+    (countsAs s = .waiting → Quiescent s = true ∧ s.deployAvail = false ∧ s.ctxDone = false) := by
   refine ⟨?_, ?_⟩
   · intro h
     cases hd : s.deployAvail with
@@ -129,115 +158,128 @@ theorem deploy_wait_is_sound (s : St) (hr : Reachable s) (hst : s.stage = .deplo
       split at h
       · cases h
       · rename_i hn
-        exact absurd ⟨h, trivial⟩ hn
-  · intro hc hctx
-    exact Arca.Proofs.PluginState.deploy_counts_waiting s (Arca.Proofs.PluginState.reachable_inv s hr) hst hc hctx
+        exact absurd ⟨h, Or.inl trivial⟩ hn
+  · intro hc
+    exact Arca.Proofs.PluginState.deploy_counts_waiting marks s (Arca.Proofs.PluginState.reachable_inv marks s hr) hst hc
 
-/-- FULL STRENGTH for `waiting`: a step counted as waiting whose context is not cancelled is parked on an empty channel
-    with no report in flight (`Quiescent`), or is returning from the handler that has just processed its report and
-    will park without calling the handler again or finding an input (`Settled`). -/
-theorem detector_sound_waiting (s : St) (hr : Reachable s) (hc : countsAs s = .waiting) (hctx : s.ctxDone = false) :
-    Settled s = true :=
-  Arca.Proofs.PluginState.counts_waiting_settled s (Arca.Proofs.PluginState.reachable_inv s hr) hc hctx
+/-- FULL STRENGTH, no hypothesis: a step counted as waiting is parked on an empty channel with no report in flight
+    (`Quiescent`), or is returning from the handler that has just processed its report and will park without calling the
+    handler again or finding an input (`Settled`); its context is not cancelled. -/
+theorem detector_sound_waiting (marks : Bool) (s : St) (hr : Reachable marks s) (hc : countsAs s = .waiting) :
+    Settled s = true ∧ s.ctxDone = false :=
+  ⟨Arca.Proofs.PluginState.counts_waiting_settled marks s (Arca.Proofs.PluginState.reachable_inv marks s hr) hc,
+   counted_waiting_not_cancelled s hc⟩
 
 /-- what `Settled` means operationally: the only moves left are silent local ones (no handler call, no receive, no
     answer of the deployer or plugin awaited), and they stay settled until the step is quiescent -/
-theorem settled_is_silent (s s' : St) (a : Act) (hs : Settled s = true) (ha : a ∈ progressActs)
-    (hstep : step s a = some s') : a = .internal ∧ Settled s' = true :=
-  Arca.Proofs.PluginState.settled_step s s' a hs ha hstep
+theorem settled_is_silent (marks : Bool) (s s' : St) (a : Act) (hs : Settled s = true) (ha : a ∈ progressActs)
+    (hstep : step marks s a = some s') : a = .internal ∧ Settled s' = true :=
+  Arca.Proofs.PluginState.settled_step marks s s' a hs ha hstep
 
-/-- the closing window, exactly: counted as waiting with the context cancelled (stop condition or Close arrived, `run()`
-    has not yet taken its `ctx.Done()` branch) — the step is NOT at rest … -/
-theorem detector_sound_counterexample_cancel_in_flight :
-    ∃ s, execute init (toEnableWait ++ [.cancel]) = some s ∧
-      countsAs s = .waiting ∧ s.ctxDone = true ∧ Quiescent s = false ∧ Settled s = false := by
-  refine ⟨_, rfl, ?_, ?_, ?_, ?_⟩ <;> decide
+/-! ## the detector's view: `finished` (depends on the F11 repair of the loop) -/
 
-/-- … but it owes a checking report: it will go through `closedEarly` and report its completion -/
-theorem closing_window_owes_completion (s : St) (hr : Reachable s) (hc : countsAs s = .waiting) (hctx : s.ctxDone = true) :
-    owesCheck s = true ∧ Quiescent s = false := by
-  have hi := Arca.Proofs.PluginState.reachable_inv s hr
-  have ho := Arca.Proofs.PluginState.counts_waiting_ctx_owes s hi hc hctx
-  exact ⟨ho, Arca.Proofs.PluginState.owes_not_quiescent s hi ho⟩
-
-/-- `finished`: sound except in the failure tail -/
-theorem detector_sound_finished_partial (s : St) (hr : Reachable s) (hc : countsAs s = .finished)
+/-- whatever the loop does at completion: outside the failure tail a step counted as finished is settled -/
+theorem detector_sound_finished_partial (marks : Bool) (s : St) (hr : Reachable marks s) (hc : countsAs s = .finished)
     (hft : inFailureTail s = false) : Settled s = true :=
-  Arca.Proofs.PluginState.counts_finished_settled s (Arca.Proofs.PluginState.reachable_inv s hr) hc hft
+  Arca.Proofs.PluginState.counts_finished_settled marks s (Arca.Proofs.PluginState.reachable_inv marks s hr) hc hft
 
-/-- STILL FALSE at full strength: once `OnStepComplete` has been processed the step counts as finished, but on every
-    ending except the successful one `markStageFailures` / `markNotClosable` still have `OnStepStageFailure`
-    notifications to deliver (here: after a failed deployment, the failures of enabling … outputs, closed). -/
-theorem detector_sound_counterexample_failure_tail :
-    ∃ s, execute init (toFailedCompletion ++ [.deliver]) = some s ∧
-      countsAs s = .finished ∧ s.ctxDone = false ∧ inFailureTail s = true ∧ Quiescent s = false ∧ Settled s = false ∧
-      (∃ s1 s2, step s .internal = some s1 ∧ step s1 .deliverFailure = some s2) := by
-  refine ⟨_, rfl, ?_, ?_, ?_, ?_, ?_, _, _, rfl, rfl⟩ <;> decide
+/-- FULL STRENGTH with the marking: a step counted as finished is `Harmless` — settled, or in the failure tail with every
+    `OnStepStageFailure` still to come being about a stage `markRemainingStagesUnresolvable` has already settled. -/
+theorem detector_sound_finished (s : St) (hr : Reachable true s) (hc : countsAs s = .finished) : Harmless s = true :=
+  Arca.Proofs.PluginState.counts_finished_harmless s (Arca.Proofs.PluginState.reachable_inv true s hr) hc
 
-/-- the combined statement -/
-theorem detector_sound_partial (s : St) (hr : Reachable s) (hc : countsAs s = .waiting ∨ countsAs s = .finished)
-    (hctx : s.ctxDone = false) (hft : inFailureTail s = false) : Settled s = true := by
+/-- what `Harmless` means operationally: every remaining action of the step is a silent local move or a failure
+    notification (about settled stages), none of them changes the loop-side record, and the state stays harmless -/
+theorem harmless_is_inert (marks : Bool) (s s' : St) (a : Act) (hh : Harmless s = true) (ha : a ∈ progressActs)
+    (hstep : step marks s a = some s') :
+    (a = .internal ∨ a = .deliverFailure) ∧ Harmless s' = true ∧ loopView s' = loopView s :=
+  Arca.Proofs.PluginState.harmless_step marks s s' a hh ha hstep
+
+/-- `detector_sound`, full strength for the code with both repairs: counted as waiting or finished ⇒ nothing the step
+    still does can change the loop's view -/
+theorem detector_sound (s : St) (hr : Reachable true s) (hc : countsAs s = .waiting ∨ countsAs s = .finished) :
+    Harmless s = true := by
   rcases hc with hc | hc
-  · exact detector_sound_waiting s hr hc hctx
-  · exact detector_sound_finished_partial s hr hc hft
+  · have := (detector_sound_waiting true s hr hc).1
+    simp [Harmless, this]
+  · exact detector_sound_finished s hr hc
 
-/-- the full statement (only the context exception) is false, because of the failure tail -/
-theorem detector_sound_counterexample :
-    ¬ (∀ s, Reachable s → (countsAs s = .waiting ∨ countsAs s = .finished) → s.ctxDone = false → Settled s = true) := by
+/-- WITHOUT the marking (`marks = false`, the loop before the F11 repair) this is false: once `OnStepComplete` has been
+    processed the step counts as finished, but `markStageFailures` / `markNotClosable` still have `OnStepStageFailure`
+    notifications to deliver for stages the loop has not settled (here: after a failed deployment). -/
+theorem detector_sound_counterexample_failure_tail :
+    ∃ s, execute false init (toFailedCompletion ++ [.deliver]) = some s ∧
+      countsAs s = .finished ∧ s.ctxDone = false ∧ inFailureTail s = true ∧ Quiescent s = false ∧ Harmless s = false ∧
+      s.tailFails = [.enabling, .disabled, .starting, .running, .outputs, .closed] ∧ s.settledStages = [] ∧
+      (∃ s1 s2, step false s .internal = some s1 ∧ step false s1 .deliverFailure = some s2) := by
+  refine ⟨_, rfl, ?_, ?_, ?_, ?_, ?_, ?_, ?_, _, _, rfl, rfl⟩ <;> decide
+
+theorem detector_sound_counterexample_without_marking :
+    ¬ (∀ s, Reachable false s → (countsAs s = .waiting ∨ countsAs s = .finished) → Harmless s = true) := by
   intro h
-  obtain ⟨s, hex, hc, hctx, _, _, hs, _⟩ := detector_sound_counterexample_failure_tail
-  have := h s (execute_reachable Reachable.init _ s hex) (Or.inr hc) hctx
-  rw [hs] at this
+  obtain ⟨s, hex, hc, _, _, _, hh, _⟩ := detector_sound_counterexample_failure_tail
+  have := h s (execute_reachable Reachable.init _ s hex) (Or.inr hc)
+  rw [hh] at this
   cases this
+
+/-- the same trace WITH the marking: the six stages are settled when the completion is processed -/
+theorem failure_tail_settled_with_marking :
+    ∃ s, execute true init (toFailedCompletion ++ [.deliver]) = some s ∧
+      countsAs s = .finished ∧ inFailureTail s = true ∧ Harmless s = true ∧
+      s.finishedStages = [.deploy, .deployFailed] ∧
+      s.settledStages = [.enabling, .disabled, .starting, .running, .outputs, .crashed, .closed] := by
+  refine ⟨_, rfl, ?_, ?_, ?_, ?_, ?_⟩ <;> decide
 
 /-! ## the refinement does not blind the detector -/
 
 /-- per program point: wherever the refinement is at work, `run()` owes a report whose processing runs the check … -/
-theorem refinement_owes_check (s : St) (hr : Reachable s) (href : Refined s = true) : owesCheck s = true :=
-  Arca.Proofs.PluginState.refined_owes s (Arca.Proofs.PluginState.reachable_inv s hr) href
+theorem refinement_owes_check (marks : Bool) (s : St) (hr : Reachable marks s) (href : Refined s = true) :
+    owesCheck s = true :=
+  Arca.Proofs.PluginState.refined_owes marks s (Arca.Proofs.PluginState.reachable_inv marks s hr) href
 
 /-- … a step that owes one is not at rest, and every action (of the step, the plugin side or the engine) either IS the
     processing of such a report — an `OnStageChange` with a previous stage or the `OnStepComplete`, never only an
     `OnStepStageFailure` — or leaves it owed. -/
-theorem owed_check_is_delivered_or_kept (s s' : St) (a : Act) (hr : Reachable s) (ho : owesCheck s = true)
-    (hstep : step s a = some s') :
+theorem owed_check_is_delivered_or_kept (marks : Bool) (s s' : St) (a : Act) (hr : Reachable marks s)
+    (ho : owesCheck s = true) (hstep : step marks s a = some s') :
     Quiescent s = false ∧ ((a = .deliver ∧ checkingReportPending s = true) ∨ owesCheck s' = true) :=
-  ⟨Arca.Proofs.PluginState.owes_not_quiescent s (Arca.Proofs.PluginState.reachable_inv s hr) ho,
-   Arca.Proofs.PluginState.owes_step s s' a (Arca.Proofs.PluginState.reachable_inv s hr) ho hstep⟩
+  ⟨Arca.Proofs.PluginState.owes_not_quiescent marks s (Arca.Proofs.PluginState.reachable_inv marks s hr) ho,
+   Arca.Proofs.PluginState.owes_step marks s s' a (Arca.Proofs.PluginState.reachable_inv marks s hr) ho hstep⟩
 
 /-- over schedules: from a state that owes a check, every run to rest — whatever the engine and the plugin side do in
     between — contains the processing of a checking report after which the refinement is no longer at work -/
-theorem owed_check_runs : ∀ (acts : List Act) (s t : St), Reachable s → owesCheck s = true → execute s acts = some t →
-    Quiescent t = true → hasFaithfulCheck s acts = true := by
+theorem owed_check_runs (marks : Bool) : ∀ (acts : List Act) (s t : St), Reachable marks s → owesCheck s = true →
+    execute marks s acts = some t → Quiescent t = true → hasFaithfulCheck marks s acts = true := by
   intro acts
   induction acts with
   | nil =>
     intro s t hr ho hex hq
     simp [execute] at hex
     subst hex
-    have := Arca.Proofs.PluginState.owes_not_quiescent s (Arca.Proofs.PluginState.reachable_inv s hr) ho
+    have := Arca.Proofs.PluginState.owes_not_quiescent marks s (Arca.Proofs.PluginState.reachable_inv marks s hr) ho
     rw [hq] at this
     cases this
   | cons a rest ih =>
     intro s t hr ho hex hq
     simp only [execute] at hex
-    cases hstep : step s a with
+    cases hstep : step marks s a with
     | none => simp [hstep] at hex
     | some s' =>
       simp only [hstep] at hex
-      have hr' : Reachable s' := Reachable.step a hr hstep
+      have hr' : Reachable marks s' := Reachable.step a hr hstep
       simp only [hasFaithfulCheck, hstep, Bool.or_eq_true, Bool.and_eq_true]
-      rcases Arca.Proofs.PluginState.owes_step s s' a (Arca.Proofs.PluginState.reachable_inv s hr) ho hstep with ⟨ha, hp⟩ | ho'
+      rcases Arca.Proofs.PluginState.owes_step marks s s' a (Arca.Proofs.PluginState.reachable_inv marks s hr) ho hstep
+        with ⟨ha, hp⟩ | ho'
       · cases href : Refined s' with
         | false => left; subst ha; simp [hp]
-        | true => right; exact ih s' t hr' (refinement_owes_check s' hr' href) hex hq
+        | true => right; exact ih s' t hr' (refinement_owes_check marks s' hr' href) hex hq
       · right; exact ih s' t hr' ho' hex hq
 
 /-- `no_lost_check`: whenever `countsAs` turns a raw `waiting_for_input` / `finished` into `running`, every run of the
     step to rest contains a check that sees the step as it is -/
-theorem no_lost_check (s t : St) (acts : List Act) (hr : Reachable s) (href : Refined s = true)
-    (hex : execute s acts = some t) (hq : Quiescent t = true) : hasFaithfulCheck s acts = true :=
-  owed_check_runs acts s t hr (refinement_owes_check s hr href) hex hq
+theorem no_lost_check (marks : Bool) (s t : St) (acts : List Act) (hr : Reachable marks s) (href : Refined s = true)
+    (hex : execute marks s acts = some t) (hq : Quiescent t = true) : hasFaithfulCheck marks s acts = true :=
+  owed_check_runs marks acts s t hr (refinement_owes_check marks s hr href) hex hq
 
 /-! ## why a short window cannot trigger the detector -/
 
@@ -268,29 +310,38 @@ theorem short_window_cannot_trigger (t0 d a b : Nat) (hshort : b ≤ a + Arca.Ge
 /-! ## non-vacuity -/
 
 /-- a step counted as waiting that is quiescent (parked on the empty deploy channel, report processed) -/
-example : (execute init toDeployWait).map (fun s => (s.state, countsAs s, Quiescent s, Settled s)) =
+example : (execute true init toDeployWait).map (fun s => (s.state, countsAs s, Quiescent s, Settled s)) =
     some (.waiting, .waiting, true, true) := by decide
 
 /-- a step counted as waiting that is settled but not yet parked: inside / returning from the handler of
     `OnStageChange(deploy -> enabling)`, where the first poll runs -/
-example : (execute init (toEnableLock ++ [.internal, .deliver])).map
+example : (execute true init (toEnableLock ++ [.internal, .deliver])).map
     (fun s => (s.pc, countsAs s, Quiescent s, Settled s, Refined s)) = some (.eCbRet, .waiting, false, true, false) := by decide
 
 /-- the refinement is at work in a reachable state, a check is owed … -/
-example : (execute init (toEnableLock ++ [.provideEnabling true, .internal])).map (fun s => (Refined s, owesCheck s)) =
+example : (execute true init (toEnableLock ++ [.provideEnabling true, .internal])).map (fun s => (Refined s, owesCheck s)) =
     some (true, true) := by decide
 
 /-- … and the run from there to rest (the step parks waiting for its run input) contains a faithful check: the processing
     of `OnStageChange(enabling -> starting)` -/
 example :
-    (match execute init (toEnableLock ++ [.provideEnabling true, .internal]) with
+    (match execute true init (toEnableLock ++ [.provideEnabling true, .internal]) with
      | some s =>
        let acts : List Act := [.deliver, .internal, .recv, .deliverFailure, .internal, .internal, .deliver, .internal, .internal]
-       ((execute s acts).map Quiescent, hasFaithfulCheck s acts)
+       ((execute true s acts).map Quiescent, hasFaithfulCheck true s acts)
      | none => (none, false)) = (some true, true) := by decide
 
+/-- a cancelled step runs through `closedEarly` to its end; counted as running until its completion is processed, then
+    as finished and harmless all the way -/
+example : (execute true init (toEnableWait ++ [.cancel, .ctx, .internal, .deliverFailure, .internal])).map
+    (fun s => (s.pc, s.state, countsAs s)) = some (.complCb .closed, .finished, .running) := by decide
+example : (execute true init (toEnableWait ++ [.cancel, .ctx, .internal, .deliverFailure, .internal, .deliver])).map
+    (fun s => (s.pc, countsAs s, Harmless s, s.tailFails, s.settledStages)) =
+    some (.complCbRet .closed, .finished, true, [.starting, .running, .outputs],
+      [.deployFailed, .enabling, .disabled, .starting, .running, .outputs, .crashed]) := by decide
+
 /-- the step does get through to `done`; there `finished` is counted and is sound -/
-example : (execute init (toStartTry ++ [.internal, .internal, .deliver, .internal, .internal, .provideStarting, .recv, .internal,
+example : (execute true init (toStartTry ++ [.internal, .internal, .deliver, .internal, .internal, .provideStarting, .recv, .internal,
     .startOk, .internal, .deliver, .internal, .resultOk, .internal, .deliver, .internal, .internal, .deliver, .internal,
     .internal])).map (fun s => (s.pc, s.state, s.stage, countsAs s, Quiescent s)) =
     some (.done, .finished, .outputs, .finished, true) := by decide
